@@ -88,3 +88,9 @@ CHECKS["C10"] = {
          "delivered, the sides converge afterwards without losing user content; a persistently failing file (locked / invalid name) is reported, does not block a healthy file and is "
          "synchronised after the failure is lifted.",
  "technique": "bounded exhaustive exploration; operation, fault call indices and kinds are z3 integer choices enumerated by solver-decided branching over the real engine and service loops with a fault-injecting provider wrapper"}
+CHECKS["C12"] = {
+ "text": "Exhaustive bounded exploration with solver-enumerated choices (M2): histories mixing operations inside the roots, in a prefix-sibling folder, elsewhere in the account and moves "
+         "across the boundary (files and folders, both directions), with roots by path / by id, event filtering, and a declining translate, through the real engine. After every engine "
+         "step: nothing outside the roots changed and every engine-issued mutation targets a path inside the root; at quiescence the roots agree and no outside or declined content crossed. "
+         "The translate function itself is verified symbolically under C13.",
+ "technique": "bounded exhaustive exploration; operations (inside/outside/across the root boundary) and schedules are z3 integer choices enumerated by solver-decided branching over the real engine; per-step outside-snapshot and call-target oracles"}
